@@ -683,10 +683,14 @@ class Trellis:
             self.application_id, self.schema_version, schema_scripts
         )
         async with self.db:
-            if is_fresh:
+            root = None if is_fresh else self.find(Root, "")
+            if root is None:
+                # Also when the schema is there and the root is not:
+                # the previous process was killed between applying the schema
+                # and the transaction that creates the root node.
                 self._root = self.create(Root, None)
             else:
-                self._root = self.find(Root, "")
+                self._root = root
                 self._rebuild_temp_tables()
                 self._check_consistency()
 
